@@ -35,7 +35,7 @@ func init() {
 		},
 		N: func(tier string) int {
 			if tier == "quick" {
-				return 1600
+				return 8000
 			}
 			return 60000
 		},
